@@ -34,6 +34,9 @@ pub(crate) struct AssocFileData {
     source_name: Arc<PathBuf>,
     exports: RefCell<Option<Export>>,
     files: FileManager,
+    /// How many expressions that are evaluated only under a condition (the fallback of
+    /// `a or b`) enclose the node being parsed.
+    conditionally_evaluated: Cell<usize>,
 }
 
 #[derive(Debug, PartialEq, Clone)]
@@ -76,7 +79,24 @@ impl AssocFileData {
             source_name: Arc::new(destination.with_extension("ms").to_path_buf()),
             files: files_loaded,
             exports: RefCell::default(),
+            conditionally_evaluated: Cell::new(0),
         }
+    }
+
+    /// Parses an expression that is evaluated only under a condition, like the fallback of
+    /// `a or b`. A constant in it that cannot be evaluated (`1 / 0`) is not "guaranteed to fail
+    /// at runtime": it is kept as written and fails when, and if, it is evaluated.
+    pub fn conditionally_evaluated<R>(&self, parse: impl FnOnce() -> R) -> R {
+        self.conditionally_evaluated
+            .set(self.conditionally_evaluated.get() + 1);
+        let result = parse();
+        self.conditionally_evaluated
+            .set(self.conditionally_evaluated.get() - 1);
+        result
+    }
+
+    pub fn is_conditionally_evaluated(&self) -> bool {
+        self.conditionally_evaluated.get() != 0
     }
 
     pub fn file_manager(&self) -> &FileManager {
